@@ -1122,22 +1122,26 @@ pub fn run_check(check: &dyn Check, tier: Tier) -> Outcome {
         0
     };
     // summary of the same batch run by the binary built with the other profile (C03)
-    let other_profile: Value = std::env::var("VERIF_EMBED")
-        .ok()
-        .and_then(|p| std::fs::read_to_string(p).ok())
-        .and_then(|t| serde_json::from_str::<Value>(&t).ok())
-        .map(|v| {
-            json!({
-                "build_profile": v["coverage"]["build_profile"],
-                "evaluations": v["coverage"]["evaluations"],
-                "events_total": v["coverage"]["events_total"],
-                "batch_digest": v["coverage"]["batch_digest"],
-                "violations": v["violations"],
-                "findings": v["coverage"]["findings"],
-                "wall_s": v["wall_s"],
+    let other_profile: Value = Value::Array(
+        std::env::var("VERIF_EMBED")
+            .unwrap_or_default()
+            .split(':')
+            .filter(|p| !p.is_empty())
+            .filter_map(|p| std::fs::read_to_string(p).ok())
+            .filter_map(|t| serde_json::from_str::<Value>(&t).ok())
+            .map(|v| {
+                json!({
+                    "build_profile": v["coverage"]["build_profile"],
+                    "evaluations": v["coverage"]["evaluations"],
+                    "events_total": v["coverage"]["events_total"],
+                    "batch_digest": v["coverage"]["batch_digest"],
+                    "violations": v["violations"],
+                    "findings": v["coverage"]["findings"],
+                    "wall_s": v["wall_s"],
+                })
             })
-        })
-        .unwrap_or(Value::Null);
+            .collect(),
+    );
     let coverage = json!({
         "evaluations": res.runs_done,
         "other_build_profile_run": other_profile,
@@ -1204,8 +1208,14 @@ pub fn run_check(check: &dyn Check, tier: Tier) -> Outcome {
 }
 
 pub fn build_profile() -> &'static str {
-    if cfg!(debug_assertions) {
-        "checked (overflow-checks, debug-assertions on)"
+    // (the three profiles live in target/release, target/checked and target/debug)
+    let dev = std::env::current_exe()
+        .map(|p| p.to_string_lossy().contains("/target/debug/"))
+        .unwrap_or(false);
+    if dev {
+        "dev (opt-level 0, overflow-checks, debug-assertions on)"
+    } else if cfg!(debug_assertions) {
+        "checked (opt-level 3, overflow-checks, debug-assertions on)"
     } else {
         "release (overflow-checks off)"
     }
